@@ -36,4 +36,9 @@ def main (args : List String) : IO UInt32 := do
   let stdout ← IO.getStdout
   match args with
   | ["time"] => loopPure stdin stdout timeStep; return 0
+  | ["hash"] => loopPure stdin stdout hashStep; return 0
+  | ["store", backend] =>
+    match storeInit backend with
+    | some st => loopState stdin stdout storeStep st; return 0
+    | none => IO.eprintln "bad backend"; return 2
   | _ => IO.eprintln "usage: vdriver <engine>"; return 2
